@@ -502,3 +502,59 @@ def _imm_post(st, interp, C, res):
 
 U_IMMUTABLE = Unit("_immutable[token shapes, depth 2]", FORMULAS + "._immutable", _imm_inputs, _imm_post,
                    inline={FORMULAS + "._immutable", CORE + ".isatom"}, replay={"module": "c01", "task": "replay"})
+
+
+# ==============================================================================  C13: _str_atoms on one atom fragment
+
+COUNT_TEXT = z3.Function("count_text", z3.RealSort(), z3.StringSort())
+
+
+def c_str_count(interp, st, args, kw):
+    """_str_count(count): the count in plain decimal notation with six significant digits, a string of the
+    documented `count` language that reads back as the count rounded to six digits (decided natively by
+    the bounded round trip: '%g' formatting is outside the symbolic subset)"""
+    return COUNT_TEXT(to_real(interp.resolve(st, args[0])))
+
+
+def _sa_inputs(with_count):
+    def mk(st, interp):
+        use_state(st)
+        a = ATOMS.new(st, "atom")
+        e = a.expr
+        st.assume(z3.Length(T.SYMBOL(e)) <= 2)
+        st.assume(z3.And(T.CHARGE(e) >= -9, T.CHARGE(e) <= 9, T.ISO(e) >= 0, T.ISO(e) <= 400))
+        # an isotope ion's base is an isotope: take its D/T flag and symbol from there
+        cnt = st.fresh("count", z3.RealSort()) if with_count else 1
+        if with_count:
+            st.assume(z3.And(cnt > 0, cnt != 1))
+        return [VTuple([VTuple([cnt, a])])], {}, {"a": e, "cnt": cnt}
+    return mk
+
+
+def _sa_post(st, interp, C, res):
+    if res.outcome == "raise":
+        st.oblige("never-raises", False, kind="raises", info={"exc": res.exc})
+        return
+    a, cnt = C["a"], C["cnt"]
+    iso_atom = z3.If(T.KIND(a) == 2, T.BASE(a), a)                  # the isotope (or element) under an ion
+    is_iso = T.KIND(iso_atom) == 1
+    tagged = z3.And(is_iso, z3.Not(T.OWNSYM(iso_atom)))             # D and T print by their own symbol
+    sym = T.SYMBOL(a)
+    iso_txt = z3.If(tagged, z3.Concat(z3.StringVal("["), z3.IntToStr(T.ISO(a)), z3.StringVal("]")), z3.StringVal(""))
+    q = T.CHARGE(a)
+    mag = z3.If(q >= 0, q, -q)
+    ion_txt = z3.If(q == 0, z3.StringVal(""),
+                    z3.Concat(z3.StringVal("{"), z3.If(mag > 1, z3.IntToStr(mag), z3.StringVal("")),
+                              z3.If(q > 0, z3.StringVal("+"), z3.StringVal("-")), z3.StringVal("}")))
+    cnt_txt = z3.StringVal("") if is_concrete_num(cnt) else COUNT_TEXT(cnt)
+    want = z3.Concat(sym, iso_txt, ion_txt, cnt_txt)
+    got = res.value
+    got = z3.StringVal(got) if isinstance(got, str) else got
+    st.oblige("post.text is symbol [isotope tag unless D/T] [ion tag {n?(+|-)}] [count unless 1], each tag re-readable",
+              z3.BoolVal(False) if not is_z3(got) else got == want)
+
+
+U_STR_ATOMS = [Unit("_str_atoms[one atom, count %s]" % ("!= 1" if wc else "== 1"), FORMULAS + "._str_atoms", _sa_inputs(wc), _sa_post,
+                    contracts={FORMULAS + "._str_count": c_str_count},
+                    inline={CORE + ".isatom", CORE + ".isisotope", CORE + ".ision"},
+                    replay={"module": "c13", "task": "replay"}) for wc in (False, True)]
